@@ -2513,3 +2513,25 @@ def rule_zero_exponent_normalised(col, facts):
                     ok = True
         col.check(R, "%s::write_float:zero-mantissa-handled" % mod, ok, "the scientific exponent is not normalised for a zero mantissa", f.loc())
     return n
+
+
+def rule_break_magnitude(col, facts):
+    """GRD-abs (buffer_size_const): the negative exponent break is only validated to be <= 0, so i32::MIN is a
+    valid option.  Its magnitude must not be taken with `i32::abs` (panics in debug builds, wraps to a negative
+    number - hence a 64-byte bound - in release): use a magnitude that is total (`unsigned_abs`,
+    `saturating_abs`, `wrapping_abs` followed by a widening that keeps the bit pattern, ...)."""
+    R = "GRD-abs"
+    f = facts.fn(WF + "options::Options::buffer_size_const")
+    partial = total = 0
+    where = f.loc()
+    for bb, c, a, d, t in f.calls():
+        cn = callee_name(c)
+        if cn in ("core::num::abs",) or cn.endswith("::abs"):
+            e = strip_casts(op_expr(f, a[0]))
+            if "negative_exponent_break" in show(e) or e[0] == "var":
+                partial += 1
+                where = f.loc(f.blocks[bb]["ts"])
+        if last_seg(cn) in ("unsigned_abs", "saturating_abs", "checked_abs", "wrapping_abs"):
+            total += 1
+    col.check(R, "buffer_size_const:break-magnitude", partial == 0 and total >= 1,
+              "the magnitude of the negative exponent break is taken with i32::abs (%d site(s); total alternatives: %d): negative_exponent_break(i32::MIN) is a valid option, panics in debug builds and gives a 64-byte bound in release (1e-70 then needs 72 bytes)" % (partial, total), where)
